@@ -167,6 +167,8 @@ class C07(C.PipelineCheck):
                 elif len(cnt) > 1:
                     ctx.violation(e, base + '/twice', 'each type is declared exactly once', True, wit, show)
             for g in got:
+                if g.py() == 'Wrapper':
+                    continue        # the tuple-struct decoy: outside the documented feature set, either way is accepted
                 if not any(e.decide(V.str_eq(g, x)) for x in expected):
                     ctx.violation(e, base + '/extra', 'unreachable or non-serde types are not declared', True, wit, show)
             return (mode, proj, 'ok')
